@@ -225,3 +225,21 @@ Definition rtc_match (catch : bool) (hs : list mhead) (ev : nat) : list mhead * 
 
 Definition no_raising_error_handler (hs : list mhead) : Prop :=
   forall h, In h hs -> m_event h = ev_colang_error -> m_raises h = false.
+
+(* a non-trivial state used by the Examples: main (0) activated flow 1, which has child 3; flow 2 is a
+   bystander; instance 1 is about to execute `EStep; EStep` after its match *)
+Definition mk_inst f s hs p cs a :=
+  {| i_flow := f; i_status := s; i_heads := hs; i_parent := p; i_children := cs; i_activated := a; i_new_started := false |}.
+Definition mk_head p := {| h_pos := p; h_status := HActive; h_catch := [] |}.
+Definition ex_prog : program :=
+  [ [EWaitInt true; EStart 1 true; EWaitInt false; EBlock BMatch];
+    [EWaitInt true; EBlock BMatch; EStep; EStep; EBlock BMatch];
+    [EWaitInt true; EBlock BMatch; EStep];
+    [EWaitInt true; EBlock BMatch] ].
+Definition ex_state : state :=
+  {| insts := [ mk_inst 0 Started [mk_head 3] None [1; 2] 1;
+                mk_inst 1 Started [mk_head 1] (Some 0) [3] 1;
+                mk_inst 2 Started [mk_head 1] (Some 0) [] 0;
+                mk_inst 3 Started [mk_head 1] (Some 1) [] 0 ];
+     queue := [EvOther 7] |}.
+Definition ex_orc : nat -> outcome := fun k => if Nat.eqb k 1 then ORaise else OTrue.
